@@ -532,8 +532,20 @@ func checkContent(h *History, vs []*opView) {
 		fresh := !firstSeen[key]
 		firstSeen[key] = true
 		for _, rp := range h.Ups[meta.Up].Replies {
-			if rp.Token == meta.Token && rp.Serial == meta.Serial && rp.Key == peers.KeyOf(v.lower, meta.Class, meta.Type) && v.o.SentAt > rp.At {
-				fresh = false
+			if rp.Token == meta.Token && rp.Serial == meta.Serial && rp.Key == peers.KeyOf(v.lower, meta.Class, meta.Type) {
+				// the requester sent its query before the upstream saw the
+				// exchange, and is the only operation that can have caused it
+				if v.o.SentAt > rp.QueryAt {
+					fresh = false
+				}
+				for _, w := range vs {
+					if w == v || w.q == nil || w.o.Op.Raw != nil || len(w.q.Q) != 1 || w.o.Op.Token != meta.Token || w.q.Q[0].Class != meta.Class || w.q.Q[0].Type != meta.Type {
+						continue
+					}
+					if w.o.SentAt < rp.QueryAt && (len(w.o.Resps) == 0 || w.o.Resps[0].At > rp.QueryAt) {
+						fresh = false
+					}
+				}
 			}
 		}
 		oAn, oNs, oAr := orig.An, orig.Ns, stripOPT(orig.Ar)
